@@ -66,11 +66,13 @@ class TzifModel(object):
     def transitions(self):
         return list(self.rz.trans)
 
+    claim_after_last = False      # synthetic version-1 data without a footer: the last type stays in force
+
     def claimed(self, ts):
         tr = self.rz.trans
         if not tr:
             return len(self.rz.types) == 1
-        return ts < tr[-1]
+        return ts < tr[-1] or self.claim_after_last
 
     def wall_claimed(self, wall):
         """all pre-images (real or would-be) of the wall time lie in the claimed range"""
@@ -172,6 +174,7 @@ def iter_zones(ctx, tz, relativedelta, rng, tier, with_real=True, n_posix=None, 
             rz = tzif_ref.RefZone(data)
             m = TzifModel(rz)
             m.data = data
+            m.claim_after_last = not label.startswith('wild')
             yield 'synthetic:' + label, 'tzfile-synthetic', tz.tzfile(io.BytesIO(data), filename='synthetic-' + label), m, nothing
     n = n_posix if n_posix is not None else (16 if tier == 'quick' else 150)
     years = [2019, 2020, 2021]
